@@ -500,7 +500,7 @@ pub fn run(args: &Args, out: &mut Out) {
             let f: Vec<&str> = line.split('\t').collect();
             if f.first() == Some(&"C06.src") && f.len() == 3 {
                 // debugging aid (not part of the protocol): compile a literal source text, print what comes back
-                if let Some(tgt) = crate::compile_util::Tgt::parse(f[1]) {
+                if let Some(tgt) = e2e::Cfg::parse(f[1]) {
                     let src = f[2].replace("\\n", "\n");
                     let o = e2e::compile(&src, tgt, &crate::compile_util::Mode::All);
                     eprintln!("{}\n--> {}", src, e2e::show_outcome(&o));
@@ -581,17 +581,26 @@ pub fn run(args: &Args, out: &mut Out) {
             matrix += 1;
         }
     }
+    // the spelling matrix (quick: five kinds drawn from the seed, thorough: every kind, twice)
+    let mut spelled = 0;
+    for _ in 0..(if args.thorough() { 2 } else { 1 }) {
+        for prog in e2e::spelling_progs(&mut erng, args.thorough()) {
+            e2e::run_prog(&prog, &mut erng, out, &mut hist);
+            spelled += 1;
+        }
+    }
     for k in 0..programs {
         // every other program has at least two pipelines (a layout must not leak from one pipeline to the next)
         let prog = e2e::gen_prog(&mut erng, if k % 2 == 0 { 2 } else { 0 });
         e2e::run_prog(&prog, &mut erng, out, &mut hist);
     }
     out.stat(&format!(
-        "{{\"sequences\":{},\"configs_per_sequence\":{},\"e2e_programs\":{},\"e2e_declarator_matrix_programs\":{},\"hist\":{}}}",
+        "{{\"sequences\":{},\"configs_per_sequence\":{},\"e2e_programs\":{},\"e2e_declarator_matrix_programs\":{},\"e2e_spelling_matrix_programs\":{},\"hist\":{}}}",
         seqs,
         configs.len(),
         programs,
         matrix,
+        spelled,
         hist.json()
     ));
 }
